@@ -234,8 +234,8 @@ class Recorder:
     def note(self, functions=(), assumptions=(), stubs_=()):
         self.functions |= set(functions); self.assumptions |= set(assumptions); self.stubs_used |= set(stubs_)
 
-    def decider(self, assume=(), hint_spec=()):
-        d = Decider(assume, seed=self.seed, hint_spec=hint_spec, t_short=self.t_short, t_long=self.t_long)
+    def decider(self, assume=(), hint_spec=(), rounds=None):
+        d = Decider(assume, seed=self.seed, hint_spec=hint_spec, t_short=self.t_short, t_long=self.t_long, **({"rounds": rounds} if rounds else {}))
         d.keep_smt2 = (self.tier == "thorough")
         return d
 
@@ -326,7 +326,7 @@ class Recorder:
         self.violations.append(dict(key=key, prog=prog, goal=gname, replay=path, note=note))
 
     def check(self, prog, tr: Traced, goal_fn, assume=(), twin_fn=None, hint_spec=(), O=None,
-              interp_kw=None, validate=True, key_fn=None, concrete_pred=None, extra_assume_fn=None):
+              interp_kw=None, validate=True, key_fn=None, concrete_pred=None, extra_assume_fn=None, rounds=None):
         """Decide every goal of goal_fn(A, O) -> [(name, Bool term)] for the traced program.
         twin_fn(A, O) -> [(name, Bool term)] must all be refutable (reachability twins)."""
         cfgs = json.dumps(self.cfg, sort_keys=True)
@@ -346,7 +346,7 @@ class Recorder:
             for k, v in tr.prims().items(): self.prims[k] = self.prims.get(k, 0) + v
             ctxA = list(it.ctx.assume)
             A = list(assume) + ctxA + (extra_assume_fn(tr.A, O) if extra_assume_fn else [])
-            dec = self.decider(A, hint_spec)
+            dec = self.decider(A, hint_spec, rounds)
             goals = list(goal_fn(tr.A, O))
             # obligations recorded by the interpreter are goals too
             for k, (oname, ot) in enumerate(it.ctx.oblig):
